@@ -875,3 +875,13 @@ M("c12-hyperedge-collected-per-registration", "C12", "cola/libavoid/hyperedge.cp
 M("c12-fixed-junction-keeps-old-recommendation", "C12", "cola/libavoid/junction.cpp",
   "void JunctionRef::setRecommendedPosition(const Point& position)\n{\n", "void JunctionRef::setRecommendedPosition(const Point& position)\n{\n    if (m_position_fixed) return;\n",
   mention=["JUNCTION-POSITION-WRITTEN"])
+
+# ---------------------------------------------------------------- C14 round c
+M("c14-tree-only-return-skips-incidence", "C14", "cola/libdialect/hola.cpp",
+  "        tree->addConstraints(G, true);\n        restoreIncidence(G);\n", "        tree->addConstraints(G, true);\n", mention=["HOLA-EPILOGUE", "incidence"])
+M("c14-tree-only-ranks-by-edge-length", "C14", "cola/libdialect/hola.cpp",
+  "        double rankSep = std::max(holaOpts.treeLayoutScalar_rankSep*IEL, maxAxialExtent + nodePadding);", "        double rankSep = holaOpts.treeLayoutScalar_rankSep*IEL; (void) maxAxialExtent;",
+  mention=["HOLA-EPILOGUE", "rank separation"])
+M("c14-addnetwork-resets-shared-lookups", "C14", "cola/libdialect/trees.cpp",
+  "void Tree::addNetwork(Graph &G, NodesById &treeNodes, EdgesById &treeEdges) {\n", "void Tree::addNetwork(Graph &G, NodesById &treeNodes, EdgesById &treeEdges) {\n    treeEdges.clear();\n",
+  mention=["MERGE-JOIN", "addNetwork"])
